@@ -1,8 +1,12 @@
 //go:build verif
 
-// Contracts for the Fiat-Shamir transcript (comment-only). The map of challenges and the lists of bound
-// values are not modelled (every lookup yields an arbitrary challenge record), so the clauses below are the
-// ones that hold for every transcript content: guards, error paths and ownership (no aliasing in or out).
+// Contracts for the Fiat-Shamir transcript (comment-only). The map of challenges is not modelled (every lookup
+// yields an arbitrary challenge record), so the clauses below are the ones that hold for every transcript content:
+// guards, error paths, ownership (no aliasing in or out), and what ComputeChallenge feeds the hash: the writes made
+// before the digest is taken are, in this order, the bytes of the challenge's name, the value of the previously
+// computed challenge when the position is not 0, and every bound value of the record in binding order (the list of
+// bound values is a slice of slices whose rows are read as functions of the row index: option
+// functional-nested-slices); the digest returned is the result of Sum(nil) taken after exactly these writes.
 
 package fiatshamir
 
@@ -32,17 +36,32 @@ package fiatshamir
 
 //@ func Transcript.ComputeChallenge
 //@ option nomerge
+//@ option functional-nested-slices
 //@ nullable t.previous
+//@ ghost stage = 0
+//@ ghost nb = 0
+//@ ghost summed = false
 //@ cut after def ok #1
 //@ + ghost found = ok
 //@ + ghost computed = challenge.isComputed
 //@ + ghost pos = challenge.position
 //@ + ghost prevnil = isnil(t.previous)
 //@ + ghost prevpos = t.previous.position
+//@ cut before call Write #*
+//@ + invariant[hash-input] (stage == 0 && len(callarg1) == len(challengeID) && forall(j, 0, len(challengeID), callarg1[j] == challengeID[j])) || (stage == 1 && same(callarg1, t.previous.value)) || (stage == 2 && nb < len(challenge.bindings) && same(callarg1, challenge.bindings[nb]))
+//@ cut after call Write #*
+//@ + ghost nb = ite(stage == 2, nb + 1, nb)
+//@ + ghost stage = ite(stage == 0, ite(pos == 0, 2, 1), 2)
+//@ cut before call Sum #1
+//@ + invariant[all-bound-values-hashed] stage == 2 && nb == len(challenge.bindings) && isnil(callarg1)
+//@ cut after call Sum #1
+//@ + ghost summed = true
 //@ loop 0
-//@ + invariant[index] -1 <= rangeindex && rangeindex < len(challenge.bindings)
+//@ + invariant[index] -1 <= rangeindex && rangeindex < len(challenge.bindings) && stage == 2 && nb == rangeindex + 1
+//@ + havoc nb
 //@ ensures[unknown] !found ==> result1 == errChallengeNotFound && len(result0) == 0
 //@ ensures[fresh-result] isnil(result1) ==> fresh(result0)
 //@ ensures[order] isnil(result1) && found && !computed && pos > 0 ==> !prevnil && prevpos == pos - 1
+//@ ensures[digest] isnil(result1) && found && !computed ==> summed && same(result0, resultof_Sum)
 //@ modifies t, t.challenges
 //@ end
